@@ -1,0 +1,18 @@
+//go:build verif
+
+package client
+
+import "github.com/arm-doe/sts"
+
+// Exports for the verification harness in /verif (build tag "verif" only).
+
+// VerifNewRecoverFile builds the resumed-file wrapper that recover() pushes to the
+// queue: the cached file, the predecessor announced earlier and the missing ranges.
+func VerifNewRecoverFile(cached sts.Cached, prev string, left []*sts.ByteRange) sts.Recovered {
+	return &recoverFile{Cached: cached, prev: prev, left: left}
+}
+
+// VerifNewBinnable builds the chunk wrapper that startBin hands to Payload.Add.
+func VerifNewBinnable(s sts.Sendable, tag string, noPrev bool) sts.Binnable {
+	return &binnable{Sendable: s, tag: tag, noPrev: noPrev}
+}
